@@ -151,6 +151,12 @@ impl LockfreeArena {
             if memory_usage + next_capacity > max_memory_usage {
                 let remaining_memory = max_memory_usage.saturating_sub(memory_usage);
 
+                // The string has to fit into whatever memory is left, otherwise the bucket we're
+                // about to allocate would be too small to hold it
+                if remaining_memory < slice.len() {
+                    return Err(LassoError::new(LassoErrorKind::MemoryLimitReached));
+                }
+
                 // Check that we haven't exhausted our memory limit
                 self.allocate_memory(remaining_memory)?;
 
